@@ -109,6 +109,13 @@ class ClassV:
         return None
 
 
+class StarArgs:
+    """f(*seq) with a sequence of symbolic length, handed to an assumed external that accepts it"""
+
+    def __init__(self, seq):
+        self.seq = seq
+
+
 class StopExploration(Exception):
     """enough obligations of this function have failed: the verdict is known, further paths only cost time."""
 
@@ -946,7 +953,15 @@ class Engine:
         args = []
         for a in node.args:
             if isinstance(a, ast.Starred):
-                args.extend(self.concrete_list(self.eval(a.value, env)))
+                sv = self.eval(a.value, env)
+                try:
+                    args.extend(self.concrete_list(sv))
+                except EngineError:
+                    # *seq of symbolic length: only an assumed external that declares it (star_ok) can take it, as one
+                    # StarArgs value
+                    if not getattr(f, 'star_ok', False):
+                        raise
+                    args.append(StarArgs(sv))
             else:
                 args.append(self.eval(a, env))
         kwargs = {}
